@@ -3,7 +3,7 @@
 # /repo), a scan for forbidden constructs, and the hand build of quanto's C++ kernel (cached by source hash).
 set -e
 cd "$(dirname "$0")"
-if grep -rnE '\b(Admitted|admit|Axiom|Parameter|Conjecture|Unset Guard|bypass_check|Admit Obligations)\b' coq --include=*.v | grep -v '^coq/Gen/' | grep -vE '\(\*.*(Admitted|Axiom|Parameter).*\*\)'; then
+if ! python3 tools_forbidden.py coq; then
   echo "forbidden construct found in the Coq development" >&2; exit 1
 fi
 cd coq
